@@ -339,6 +339,10 @@ func strGmatchIter(L *LState) int {
 func strGmatch(L *LState) int {
 	str := L.CheckString(1)
 	pattern := L.CheckString(2)
+	if len(pattern) > 0 && pattern[0] == '^' {
+		// in gmatch a leading '^' is not an anchor (it would stop the iteration): match it literally
+		pattern = "%" + pattern
+	}
 	mds, err := pm.Find(pattern, []byte(str), 0, -1)
 	if err != nil {
 		L.RaiseError(err.Error())
